@@ -52,7 +52,7 @@ impl Check for C11 {
     fn run(&self, ctx: &mut Ctx) -> Result<(), MachineryError> {
         let max_list = ctx.tier.pick(4usize, 7usize);
         let max_str = ctx.tier.pick(5usize, 7usize);
-        ctx.rule = format!("complete product: lists of length 0..{} (distinct elements) and ASCII strings of length 0..{} plus multi-byte strings x every index in [-2,len+2] x every bound pair in ([-2,len+2] + omitted)^2 x element assignment at every index x range assignment with list and string right-hand sides of every length 0..len+1 x all concatenation length pairs x non-integer index kinds; non-trivial = all (distinct tuples)", max_list, max_str);
+        ctx.rule = format!("complete product: lists of length 0..{} (distinct elements) and ASCII strings of length 0..{} plus multi-byte strings x every index in [-2,len+2] x every bound pair in ([-2,len+2] + omitted)^2 x element assignment at every index x range assignment with list and string right-hand sides of every length 0..len+1 x all concatenation length pairs x non-integer index kinds x element op-assignment at every index, plus 15 programs whose indices, bounds and right-hand sides read the list being assigned to; non-trivial = all (distinct tuples)", max_list, max_str);
         let mut cases: Vec<Case> = vec![];
         let mut n_defined = 0u64;
         let mut n_error = 0u64;
@@ -360,6 +360,49 @@ impl Check for C11 {
             cases.push(defined_case(format!("s := {}\nfor [i, c] in s {{\n print(i)\n print(c == s[i])\n}}\n", lit), exp, "byte iteration"));
         }
 
+        // op-assignment on an element at every index: defined exactly inside the list
+        for n in 0..=max_list as i64 {
+            let (lit, items) = list_lit(n as usize, 10);
+            for i in -2..=n + 2 {
+                for (op, f) in [("+=", 1i64), ("-=", 1), ("*=", 2)] {
+                    let src = format!("xs := {}\ni := {}\nxs[i] {} {}\nprint(xs)\n", lit, i, op, f);
+                    if i >= 0 && i < n {
+                        let mut it = items.clone();
+                        let old: i64 = it[i as usize].parse().unwrap();
+                        it[i as usize] = format!("{}", match op { "+=" => old + f, "-=" => old - f, _ => old * f });
+                        cases.push(defined_case(src, render_list(&it), "element op-assignment"));
+                    } else {
+                        cases.push(error_case(src, "element op-assignment out of domain"));
+                    }
+                }
+            }
+        }
+        // indices, bounds and right-hand sides that read the list being assigned to: the model is
+        // the reference interpreter (indices and bounds are evaluated first, then the write happens)
+        for src in [
+            "xs := [1, 2, 0, 3]\nxs[xs[2]] = 9\nprint(xs)\n",
+            "xs := [1, 2, 0, 3]\nxs[xs[0]] += 5\nprint(xs)\n",
+            "xs := [1, 2, 0, 3]\nxs[xs[0]:xs[3]] = [7, 8]\nprint(xs)\n",
+            "xs := [1, 2, 0, 3]\nxs[xs[2]:xs[1]] = xs[2:4]\nprint(xs)\n",
+            "xs := [1, 2, 0, 3]\nxs[:xs[1]] = [xs[1], xs[0]]\nprint(xs)\n",
+            "xs := [1, 2, 0, 3]\nxs[xs[0]:] = [xs[3], xs[2], xs[1]]\nprint(xs)\n",
+            "xs := [1, 2, 0, 3]\nxs[1] = xs[0] + xs[3]\nprint(xs)\n",
+            "xs := [1, 2, 0, 3]\nxs[0:4] = xs\nprint(xs)\n",
+            "xs := [1, 2, 0, 3]\nxs[0:2] = xs[2:4]\nxs[2:4] = xs[0:2]\nprint(xs)\n",
+            "xs := [1, 2, 0, 3]\nfn at(l) {\nreturn l[2]\n}\nfn n(l) {\nk := 0\nfor e in l {\nk += 1\n}\nreturn k\n}\nxs[at(xs):n(xs)] = [4, 5, 6, 7]\nprint(xs)\n",
+            "xs := [1, 2, 0, 3]\nxs[xs[9]] = 1\nprint(xs)\n",
+            "xs := [1, 2, 0, 3]\nxs[xs[3]:xs[0]] = []\nprint(xs)\n",
+            "xs := [[1], [0]]\nxs[xs[1][0]][0] = 5\nprint(xs)\n",
+            "s := \"abc\"\nxs := [0, 1, 2]\nxs[xs[1]:] = s[xs[1]:]\nprint(xs)\n",
+            "o := {\"l\": [1, 0]}\no.l[o.l[1]] = 7\nprint(o.l)\no.l[o.l[1]:] = [8]\nprint(o.l)\n",
+        ] {
+            let r = crate::refm::eval::run(src, 100_000);
+            if r.is_ok() {
+                cases.push(defined_case(src.to_string(), String::from_utf8_lossy(&r.stdout).to_string(), "self-reading index or bound"));
+            } else {
+                cases.push(error_case(src.to_string(), "self-reading index or bound out of domain"));
+            }
+        }
         for c in &cases {
             if c.meta.starts_with('D') {
                 n_defined += 1;
